@@ -90,7 +90,9 @@ fn check_events(pre: &Sim, a: &Act, ap: &Applied, post: &Sim) -> Vec<Violation> 
 /// direct grid over the three message constructors
 fn constructor_grid(r: &mut Runner) {
     let long = "s".repeat(60);
-    let subs = ["umilkTIA", "abcd", long.as_str()];
+    // 44 characters is the token-factory limit of the chains
+    let limit = "t".repeat(44);
+    let subs = ["umilkTIA", "abcd", limit.as_str(), long.as_str()];
     let amounts: [u128; 4] = [1, 37, 1_000_000_000_000_000_000_000_000_000, u128::MAX];
     let senders = [contract_addr(), p32("another-contract")];
     let mut n = 0u64;
